@@ -157,6 +157,17 @@ let () =
       | "pair" :: rest -> print_endline (run_pair zlb_recv rest)
       | "disp" :: rest -> print_endline (run_disp zlb_recv rest)
       | "full" :: rest -> print_endline (run_full rest)
+      | ["sccrqdup"] ->
+        (* the second copy of an SCCRQ is a duplicate for the control connection it opened: the receive step rejects
+           it (ns <> nr), the protocol machine sees the SCCRQ once -> one tunnel.  defective = today: the SCCRQ path
+           has no receive step in front of the handler, every copy opens a tunnel *)
+        let data ns nr = { k_body = Some (zi 1); k_sid = Z0; k_ns = zi ns; k_nr = zi nr } in
+        let e0 = new_endpoint Z0 Z0 Z0 Z0 (zi 16) Z0 Z0 in
+        let handed e = match ep_deliver false e (data 0 0) Z0 with (e', ODeliver (h, _)) -> (e', h) | (e', _) -> (e', false) in
+        let (e1, h1) = handed e0 in
+        let (_, h2) = handed e1 in
+        let count = (if h1 then 1 else 0) + (if zlb_recv then 1 else if h2 then 1 else 0) in
+        Printf.printf "sccrqdup tunnels=%d\n" count
       | ["stopccn"] ->
         (* SCCRQ (reply SCCRP), SCCCN, StopCCN (handler removes the tunnel) through the dispatch rule; the owed
            acknowledgement is sent at teardown (repaired: FlushAck = a Tick at the ZLB deadline); defective =
